@@ -221,3 +221,48 @@ def user_defined_raw_codec(H, i):
     H.check("set_raw_touches_nothing_else", H.eq({k: x for k, x in m.controller_values.items() if k != name},
                                                  {k: x for k, x in before.items() if k != name}))
     H.cover("reached")
+
+
+def _file_cases(tier):
+    pairs = [("VorbisPlayer", "finetune"), ("Amplifier", "balance"), ("MultiSynth", "transpose"), ("Generator", "polyphony"), ("Amplifier", "bipolar_dc_offset")]
+    return [(f"{c}.{n},{ctx}", (c, n, ctx)) for c, n in pairs for ctx in ("project", "synth")]
+
+
+@contract("stored_value_in_files", ["C10"], cases=_file_cases,
+          targets=["rv.project:Project.chunks", "rv.synth:Synth.chunks", "rv.modules.module:Module.get_raw", "rv.readers.module:ModuleReader.process_CVAL",
+                   "rv.readers.module:ModuleReader.process_SEND", "rv.modules.module:Module.set_raw"])
+def stored_value_in_files(H, case):
+    """The value -> stored FILE value -> value chain through both writers (project and stand-alone synth)
+    for one controller of every range kind (no-offset with negative values, offset, compact, minimum 1):
+    the CVAL chunk holds the documented stored value as a signed 32-bit integer, and loading restores v."""
+    from rv.project import Project
+    from rv.synth import Synth
+    from spec import format as F
+
+    from . import rw
+
+    cname, name, ctx = case
+    cls = K.class_by_name(cname)
+    m = cls()
+    v, t = K.sym_value_in_domain(H, m, name)
+    m.controller_values[name] = v
+    idx = list(cls.controllers).index(name)
+    if ctx == "project":
+        p = Project()
+        p.attach_module(m)
+        exc, data = H.raises(rw.write_container, H, p)
+    else:
+        exc, data = H.raises(rw.write_container, H, Synth(m))
+    H.check("every_legal_value_can_be_written", exc is None)
+    if exc is not None:
+        return
+    chunks = F.parse_stream(data)
+    cvals = [c[1] for c in chunks if bytes(c[0]) == b"CVAL"]
+    H.check("one_cval_per_controller", len(cvals) >= idx + 1)
+    if len(cvals) > idx:
+        want = v if (isinstance(t, NoOffsetRange) or t.min >= 0) else v - t.min
+        H.check("file_holds_documented_stored_value", F.dec_i32(cvals[idx]) == want)
+    q = rw.read_back(H, data)
+    q = q.modules[1] if ctx == "project" else q.module
+    H.check("loading_restores_value", H.eq(q.controller_values[name], v))
+    H.cover("reached")
